@@ -698,6 +698,7 @@ err_out_timer:
 		}
 
 		tp_udata->tpdata &= ~TPDATA_F_DISABLED;
+		TPDATA_EV_FL_SET(tp_udata->tpdata, ev->event, ev->flags); /* Flags may change on re-arm. */
 		switch ((TP_FF_T_TM_MASK & ev->fflags)) {
 		case TP_FF_T_SEC:
 			new_tmr.it_value.tv_sec = (time_t)ev->data;
